@@ -196,7 +196,13 @@ class G:
         # a parameter may have the name of a variable of an enclosing scope (the operands are in the OUTER scope and may
         # name that variable: the shape of defect e50bef37)
         if nfix > 0 and env and r.random() < 0.2:
-            ps[r.randrange(nfix)] = r.choice(env)
+            i, sh = r.randrange(nfix), r.choice(env)
+            ps[i] = sh
+            if nargs >= 2 and i < nargs and r.random() < 0.6:
+                j = r.choice([k for k in range(nargs) if k != i])
+                args[j] = ("var", sh)                   # an operand names the shadowed outer variable ...
+                if r.random() < 0.7:
+                    args[i] = self.const()              # ... while the parameter of that name is bound to a constant
         # numeric parameters may be mentioned (sometimes a parameter is never mentioned)
         fixed = ps[:-1] if rest else ps
         env2 = [v for v in env if v not in ps] + [p for p, a in zip(fixed, args)
